@@ -823,9 +823,103 @@ def check_synonym(ctx, layer, ca, cb, seed):
       return
 
 
+def run_must_reject(ctx):
+  """The invalid combinations the property NAMES must be rejected with ValueError at construction /
+  build: lattice size < 2, a dimension both monotone and unimodal, trust on a non-monotone main
+  feature, a feature used as main and conditional (also within ONE trust), dominance between
+  non-monotone features, output_min > output_max, unsorted keypoints, cyclic together with
+  monotonicity. Acceptance (or another exception class) is an oracle failure."""
+  import tensorflow_lattice as tfl
+  from tensorflow_lattice.python import lattice_layer, pwl_calibration_layer, linear_layer
+  from tensorflow_lattice.python import categorical_calibration_layer as ccl
+  rng = ctx.rng
+  cases = []
+  for _ in range(ctx.n(6, 60)):
+    rank = rng.randint(2, 4)
+    sizes = [rng.randint(2, 4) for _ in range(rank)]
+    d = rng.randrange(rank)
+    e = (d + 1 + rng.randrange(rank - 1)) % rank
+    mono = [1] * rank
+    direction = rng.choice([1, -1, "positive", "negative"])
+    trust_kind = rng.choice(["edgeworth_trusts", "trapezoid_trusts"])
+    def lat(**kw):
+      base = dict(lattice_sizes=list(sizes), monotonicities=list(mono))
+      base.update(kw)
+      return base
+    bad_sizes = list(sizes); bad_sizes[d] = rng.choice([0, 1])
+    uni = [0] * rank; uni[d] = rng.choice([1, -1, "valley", "peak"])
+    sizes3 = [max(3, x) for x in sizes]
+    mono_free = list(mono); mono_free[d] = 0
+    other = [(e, (e + 1) % rank if (e + 1) % rank != d else (e + 2) % rank, 1)] if rank >= 3 else []
+    other = [t for t in other if t[0] != t[1]]
+    cases += [
+        ("Lattice", "size<2", lat(lattice_sizes=bad_sizes)),
+        ("Lattice", "monotone+unimodal", lat(lattice_sizes=sizes3, unimodalities=uni)),
+        ("Lattice", "trust-on-free-main", lat(monotonicities=mono_free, **{trust_kind: [(d, e, direction)]})),
+        ("Lattice", "self-trust", lat(**{trust_kind: [(d, d, direction)]})),
+        ("Lattice", "self-trust-after-other", lat(**{trust_kind: other + [(d, d, direction)]})),
+        ("Lattice", "main-and-conditional", lat(**{trust_kind: [(d, e, direction), (e, d, direction)]})),
+        ("Lattice", "dominance-free-feature", lat(monotonicities=mono_free, monotonic_dominances=[(d, e)])),
+        ("Lattice", "range-dominance-free-feature", lat(monotonicities=mono_free, range_dominances=[(e, d)])),
+        ("Lattice", "min>max", lat(output_min=1.0, output_max=rng.choice([0.0, 0.5]))),
+        ("LatticeConstraints", "self-trust", lat(**{trust_kind: [(d, d, direction)]})),
+        ("LatticeConstraints", "monotone+unimodal", lat(lattice_sizes=sizes3, unimodalities=uni)),
+    ]
+    kps = sorted({rng.randint(-5, 5) + 0.5 * rng.randint(0, 1) for _ in range(rng.randint(3, 6))})
+    if len(kps) >= 3:
+      unsorted = list(kps); unsorted[0], unsorted[-1] = unsorted[-1], unsorted[0]
+      dup = list(kps); dup[1] = dup[0]
+      cases += [
+          ("PWLCalibration", "unsorted-keypoints", dict(input_keypoints=unsorted)),
+          ("PWLCalibration", "repeated-keypoint", dict(input_keypoints=dup)),
+          ("PWLCalibration", "cyclic+monotone", dict(input_keypoints=list(kps), is_cyclic=True,
+                                                     monotonicity=rng.choice([1, -1, "increasing", "decreasing"]))),
+          ("PWLCalibration", "min>max", dict(input_keypoints=list(kps), output_min=2.0, output_max=1.0)),
+      ]
+    n = rng.randint(2, 4)
+    cases += [
+        ("Linear", "dominance-free-feature", dict(num_input_dims=n, monotonicities=[0] * n, monotonic_dominances=[(0, 1)])),
+        ("CategoricalCalibration", "min>max", dict(num_buckets=3, output_min=1.0, output_max=0.0)),
+    ]
+  ctors = {"Lattice": lattice_layer.Lattice, "LatticeConstraints": lattice_layer.LatticeConstraints,
+           "PWLCalibration": pwl_calibration_layer.PWLCalibration, "Linear": linear_layer.Linear,
+           "CategoricalCalibration": ccl.CategoricalCalibration}
+  for layer, what, cfg in cases:
+    ctx.count("must_reject:" + what)
+    outcome, msg = "accepted", ""
+    try:
+      obj = ctors[layer](**cfg)
+      if hasattr(obj, "build") and layer != "LatticeConstraints":
+        if layer == "Lattice":
+          obj.build((None, len(cfg["lattice_sizes"])))
+        elif layer == "Linear":
+          obj.build((None, cfg["num_input_dims"]))
+        else:
+          obj.build((None, 1))
+    except ValueError as ex:
+      if not isinstance(ex, tf_errors()):
+        outcome = "ValueError"
+      else:
+        outcome, msg = type(ex).__name__, str(ex)[:200]
+    except Exception as ex:  # pylint: disable=broad-except
+      outcome, msg = type(ex).__name__, str(ex)[:200]
+    ctx.case(sig=("must_reject", layer, what), nontrivial=True,
+             sample=dict(stream="must_reject", layer=layer, what=what, cfg=repr(cfg), outcome=outcome))
+    if outcome != "ValueError":
+      ctx.fail("must_reject", dict(layer=layer, stage="ctor", exc=outcome, pred=what),
+               dict(stream="must_reject", layer=layer, what=what, cfg=repr(cfg)), dict(outcome=outcome, msg=msg),
+               "a configuration the property names as invalid was not rejected with ValueError")
+
+
+def tf_errors():
+  import tensorflow as tf
+  return tf.errors.OpError
+
+
 def run(ctx):
   import tensorflow as tf
   tf.keras.utils.set_random_seed(ctx.seed + 17) if hasattr(tf.keras.utils, "set_random_seed") else None
+  run_must_reject(ctx)
   run_tables(ctx)
   run_canon(ctx)
   run_layers(ctx)
@@ -844,6 +938,9 @@ def replay(ctx, failure):
   stream = case.get("stream")
   if stream == "canon":
     run_canon(ctx)
+    return
+  if stream == "must_reject":
+    run_must_reject(ctx)
     return
   cfg = ast.literal_eval(case["cfg"])
   if stream == "table":
